@@ -96,11 +96,12 @@ impl Scalar {
         if self.l[0] == MAGIC_U64 {
             // `from_raw` applied to the limbs of a token (a scalar's own encoding read back)
             let b = fq::to_le_bytes(&self.l);
-            let (k, id, _) = untoken(&b).expect("token");
-            return match k {
-                K_SCALAR => id,
-                _ => panic!("symex: from_raw on a non-scalar token (kind {})", k),
-            };
+            match untoken_lenient(&b) {
+                Some((K_SCALAR, id, _)) => return id,
+                Some((k, _, _)) => panic!("symex: from_raw on a non-scalar token (kind {})", k),
+                // only the first word of a token (its bytes read as an integer): an ordinary constant
+                None => return konst(fq::reduce(&self.l)),
+            }
         }
         // `from_raw` applied to 64-bit words some of which are limbs of 256-bit blobs (a digest turned into a scalar):
         // value = sum_k word_k * 2^(64k)  (mod q)
